@@ -620,7 +620,10 @@ impl IoLoop {
                         PollOpt::edge(),
                     )
                     .context(RegisterWithPollHandleSnafu)?;
-            } else if had_data_to_write {
+            } else if had_data_to_write && !self.inner.has_data_to_write() {
+                // everything we had has been written; only now do we know the socket has
+                // been written to, and can drop the writable interest. (If data is still
+                // queued we keep the registration we have, which includes writable.)
                 trace!("reregistering socket for readable only");
                 have_written_to_socket = true;
                 self.poll
